@@ -7,3 +7,17 @@ Proof. intros. unfold Gen.partition, partition, Gen.py_range, arange, cdiv. refl
 
 Lemma gen_balance_pins : Gen.balance_span_pins = true.
 Proof. reflexivity. Qed.
+
+(** the element-wise masks of the balancing filters as translated from _balance.py (per pixel) are the conditions of the
+    model's filters *)
+Lemma gen_zero_diags d w :
+  f_zero_diags d w = if Gen.bal_diag_mask (b1 w) (b2 w) d then (fst w, 0%Q) else w.
+Proof. reflexivity. Qed.
+Lemma gen_zero_trans chroms w :
+  f_zero_trans chroms w = if Gen.bal_trans_mask (chrom_of chroms (b1 w)) (chrom_of chroms (b2 w)) then (fst w, 0%Q) else w.
+Proof. unfold f_zero_trans, Gen.bal_trans_mask. destruct (chrom_of chroms (b1 w) =? chrom_of chroms (b2 w))%Z; reflexivity. Qed.
+Lemma gen_zero_cis chroms w :
+  f_zero_cis chroms w = if Gen.bal_cis_mask (chrom_of chroms (b1 w)) (chrom_of chroms (b2 w)) then (fst w, 0%Q) else w.
+Proof. reflexivity. Qed.
+Lemma gen_balance_filter_pins : Gen.balance_filter_pins = true.
+Proof. reflexivity. Qed.
